@@ -707,7 +707,7 @@ func runListHistory(tmp string, h []string) (vkey, vdesc string, engineErr strin
 			return "list-history-request-failed", fmt.Sprintf("request after %v failed: %v", h[:i+1], rerr), ""
 		}
 		asked := len(a.up.Reset())
-		blocked := asked == 0 && len(resp.Answer) == 1 && strings.Contains(resp.Answer[0].String(), "0.0.0.0")
+		blocked := asked == 0 && len(resp.Answer) == 1 && strings.Contains(resp.Answer[0].String(), blockedV4)
 		want := present && enabled
 		if blocked != want {
 			what := "is forwarded to the upstream although its list is present and enabled"
@@ -791,7 +791,7 @@ func runAllowHistory(tmp string, h []string) (vkey, vdesc string, engineErr stri
 			return "list-history-request-failed", fmt.Sprintf("request after %v failed: %v", h[:i+1], rerr), ""
 		}
 		asked := len(a.up.Reset())
-		blocked := asked == 0 && len(resp.Answer) == 1 && strings.Contains(resp.Answer[0].String(), "0.0.0.0")
+		blocked := asked == 0 && len(resp.Answer) == 1 && strings.Contains(resp.Answer[0].String(), blockedV4)
 		want := !(present && enabled)
 		if blocked != want {
 			what := "is blocked although the allow list that names it is present and enabled"
@@ -865,7 +865,7 @@ func runProtHistory(tmp string, h []string) (vkey, vdesc string, engineErr strin
 			return "protection-history-request-failed", fmt.Sprintf("request after %v failed: %v", h[:i+1], rerr), ""
 		}
 		asked := len(a.up.Reset())
-		blocked := asked == 0 && len(resp.Answer) == 1 && strings.Contains(resp.Answer[0].String(), "0.0.0.0")
+		blocked := asked == 0 && len(resp.Answer) == 1 && strings.Contains(resp.Answer[0].String(), blockedV4)
 		// The request that notices an expired pause starts the re-enable worker;
 		// let it finish before the next step.
 		for k := 0; k < 2000 && !a.server.VerifProtectionUpdateIdle(); k++ {
